@@ -3,6 +3,7 @@
 // M3: complete products of unimodal 1D objectives / quadratic bowls x starts x tolerances.
 #include "mc/mc.hpp"
 #include "mc/exit_trap.hpp"
+#include "mc/purity.hpp"
 #include "libphysica/Numerics.hpp"
 #include <map>
 using namespace libphysica;
@@ -372,6 +373,40 @@ static void bowls(unsigned long long& unit, Stats& st)
 	mc::count("distinct_nontrivial", cases);
 }
 
+// ---- call histories: a minimisation does not depend on the minimisations made before it ------------------------------------------------
+static void histories(unsigned long long& unit)
+{
+	std::vector<mc::PureLetter> L;
+	auto rec1 = [](std::function<double(double)> f, double a, double b, double tol, bool maxi) {
+		std::string q;
+		std::function<double(double)> fn = [&](double x) { q += mc::hexd(x) + ","; return f(x); };
+		double v = maxi ? Find_Maximum(fn, a, b, tol) : Find_Minimum(fn, a, b, tol);
+		return mc::hexd(v) + "|" + q;
+	};
+	L.push_back({"Find_Minimum((x-2)^2,0,1)", [=]() { return rec1([](double x) { return (x - 2) * (x - 2); }, 0, 1, 3e-8, false); }});
+	L.push_back({"Find_Minimum((x-2)^2,0,1,1e-3)", [=]() { return rec1([](double x) { return (x - 2) * (x - 2); }, 0, 1, 1e-3, false); }});
+	L.push_back({"Find_Minimum(cosh(x+7),5,4)", [=]() { return rec1([](double x) { return std::cosh(x + 7); }, 5, 4, 1e-10, false); }});
+	L.push_back({"Find_Maximum(-x^4+x,-1,0)", [=]() { return rec1([](double x) { return -x * x * x * x + x; }, -1, 0, 1e-9, true); }});
+	L.push_back({"Find_Minimum(1e-24 scale)", [=]() { return rec1([](double x) { return 1e-24 * (x - 1e-12) * (x - 1e-12); }, 0, 1e-13, 1e-6, false); }});
+	auto nm = [](int d, double delta, double ftol, int overload) {
+		std::string q;
+		int n = 0;
+		std::function<double(Vec)> fn = [&](Vec x) { if(n++ < 30) q += mc::hexv(x) + ";"; double s = 3; for(size_t i = 0; i < x.size(); i++) s += (1 + i) * (x[i] - 0.5 * (i + 1)) * (x[i] - 0.5 * (i + 1)); return s; };
+		Minimization M(ftol);
+		Vec start(d, -1.0), r;
+		if(overload == 0) r = M.minimize(start, delta, fn);
+		else if(overload == 1) { Vec dl(d); for(int i = 0; i < d; i++) dl[i] = delta * (1 + i); r = M.minimize(start, dl, fn); }
+		else { std::vector<Vec> pp(d + 1, start); for(int i = 0; i < d; i++) pp[i + 1][i] += delta; r = M.minimize(pp, fn); }
+		return mc::hexv(r) + "|" + mc::hexd(M.fmin) + "|" + std::to_string(M.nfunc) + "|" + q;
+	};
+	L.push_back({"minimize(d=1,delta=1)", [=]() { return nm(1, 1.0, 1e-8, 0); }});
+	L.push_back({"minimize(d=2,delta=0.5)", [=]() { return nm(2, 0.5, 1e-6, 0); }});
+	L.push_back({"minimize(d=3,deltas)", [=]() { return nm(3, 0.25, 1e-9, 1); }});
+	L.push_back({"minimize(d=2,simplex)", [=]() { return nm(2, 2.0, 1e-3, 2); }});
+	long long t = mc::purity("histories", L, mc::thorough() ? 4 : 3, unit);
+	mc::count("evaluations", t);
+}
+
 int main(int argc, char** argv)
 {
 	mc::init(argc, argv);
@@ -385,6 +420,7 @@ int main(int argc, char** argv)
 	adversary_nm(unit, st);
 	families_1d(unit, st);
 	bowls(unit, st);
+	histories(unit);
 	mc::count("executions", st.execs);
 	mc::count("evaluations", st.execs);
 	mc::count("transitions", st.evals);
